@@ -34,6 +34,9 @@ THEOREMS = [
     "OllamaVerif.C16.total_ge_vram_partial",
     "OllamaVerif.C16.fit_only_if_placed",
     "OllamaVerif.C16.W1_overhead_wraps",
+    "OllamaVerif.C16.counts_sum",
+    "OllamaVerif.C16.noWrap_of_small",
+    "OllamaVerif.C16.fit_never_when_numGPU_huge",
 ]
 # Code variant the model mirrors: "0" = pinned /repo; "1" = after proposed_fixes/C16-W1.patch is applied
 # (then also set KNOWN_FINDINGS W1 to fixed; the overhead-wrap cases must no longer fail L2).
